@@ -221,10 +221,14 @@ STAGES = [
     "single_or_default", "first_or_default", "last_or_default", "take_last_buffer", "buffer_when", "window_when", "fork_join",
     "starmap_zip", "min_by", "max_by", "join", "group_join", "throttle_with_mapper", "delay_with_mapper", "timeout_with_mapper", "exclusive",
     "switch_latest", "merge_all", "observe_on", "subscribe_on", "skip_until_with_time", "take_until_with_time",
+    "oern_factory_stage", "catch_branch",
 ]
 SOURCES = ["cold", "cold", "cold", "of", "range", "catch", "oern", "concat", "for_in", "merge", "zip", "defer", "repeat_value",
            "from_callback", "timer", "interval", "generate", "if_then", "empty", "throw", "return_value", "from_iterable",
-           "combine_latest", "with_latest_from", "fork_join", "amb", "case", "using", "start", "from_marbles_cold", "generate_with_relative_time"]
+           "combine_latest", "with_latest_from", "fork_join", "amb", "case", "using", "start", "from_marbles_cold", "generate_with_relative_time",
+           "oern_factory", "oern_factory", "oern_mixed"]
+# sources / stages whose fallback is chosen by a FACTORY that branches on the error it is handed (None for the first one)
+FACTORY_KINDS = {"oern_factory", "oern_mixed", "oern_factory_stage", "catch_branch"}
 SEQ_ONLY = {"while_do", "do_while"}
 
 
@@ -253,8 +257,17 @@ def gen_resub_cases(rng, tier):
             gaps = [HORIZON + 100] * (k - 1)
         else:
             gaps = [rng.choice([0, 5, 10, 15, 25, 40, 60]) for _ in range(k - 1)]
-        yield {"op": "resub", "source": rng.choice(SOURCES), "colds": [gen_cold(rng) for _ in range(4)], "stages": stages,
-               "gaps": gaps, "seq": seq, "vals": [rng.randrange(0, 5) for _ in range(rng.randrange(0, 4))], "n": rng.randrange(0, 4)}
+        c = {"op": "resub", "source": rng.choice(SOURCES), "colds": [gen_cold(rng) for _ in range(4)], "stages": stages,
+             "gaps": gaps, "seq": seq, "vals": [rng.randrange(0, 5) for _ in range(rng.randrange(0, 4))], "n": rng.randrange(0, 4)}
+        if c["source"] in FACTORY_KINDS or any(s[0] in FACTORY_KINDS for s in stages):
+            # the fallback chosen by a factory depends on the error of the previous source: make sources that fail likely,
+            # also the last one of the chain (so that a stale error would still be around when the next subscription starts)
+            for k in range(4):
+                if rng.random() < 0.7:
+                    msgs = [m for m in c["colds"][k] if m[1][0] == "N"]
+                    t = (msgs[-1][0] if msgs else 0) + rng.choice([5, 10, 20])
+                    c["colds"][k] = msgs + [[t, ["E", "src%d" % rng.randrange(2)]]]
+        yield c
 
 
 class World:
@@ -316,6 +329,13 @@ def build_source(w: World, case):
         return rx.catch(w.cold(0), w.cold(1), w.cold(2))
     if k == "oern":
         return rx.on_error_resume_next(w.cold(0), w.cold(1))
+    if k == "oern_factory":
+        # every source is a factory that branches on the error it is handed (None for the first source of a subscription)
+        a0, b0, a1, b1 = w.cold(0), w.cold(1), w.cold(2), w.cold(3)
+        return rx.on_error_resume_next(lambda e: a0 if e is None else b0, lambda e: a1 if e is None else b1)
+    if k == "oern_mixed":
+        a0, b0, a1, b1 = w.cold(0), w.cold(1), w.cold(2), w.cold(3)
+        return rx.on_error_resume_next(a0, lambda e: a1 if e is None else b1, lambda e: b0 if e is None else a0)
     if k == "concat":
         return rx.concat(w.cold(0), w.cold(1))
     if k == "for_in":
@@ -411,6 +431,12 @@ def apply_stage(w: World, o, st, idx):
         alt = w.cold(c1)
         return o.pipe(ops.catch(lambda e, src: alt))
     if name == "on_error_resume_next": return o.pipe(ops.on_error_resume_next(w.cold(c1)))
+    if name == "oern_factory_stage":
+        a, b = w.cold(c1), w.cold(c2)
+        return o.pipe(ops.on_error_resume_next(lambda e: a if e is None else b))
+    if name == "catch_branch":
+        a, b = w.cold(c1), w.cold(c2)
+        return o.pipe(ops.catch(lambda e, src: a if err_name(e).endswith("0") else b))
     if name in ("switch_map", "flat_map", "flat_map_latest", "concat_map"):
         a, b = w.cold(c1), w.cold(c2)
         return o.pipe(getattr(ops, name)(lambda x: a if _num(x) % 2 == 0 else b))
